@@ -7,7 +7,7 @@ from ..model import Program, AnalysisError, own_nodes, norm, names_in, FuncInfo
 from ..cfg import cfg_of
 from ..guards import Env, walk, collect_atoms
 from ..report import Report
-from ..util import callee_last, expand_local_calls
+from ..util import callee_last, expand_local_calls, inline_temps
 
 MU = 'fggs.multi'
 CMP_BOTH = {'equal', 'allclose', 'sub', 'isclose'}
@@ -86,7 +86,13 @@ def region_coverage(rep: Report, f: FuncInfo) -> int:
             region = ('both' if present else f"only in {owner}")
             # every path of the iteration must pass a comparison of the right kind, unless the region is the other loop's job
             if present and owner == other:
-                # keys in both are handled by the loop over self; this loop must skip them or compare them again
+                # keys in both are handled by the loop over self; this loop must skip them or compare them again -- but never
+                # compare such a block with zero
+                r_both = walk(cfg, be, env, loop_header_stop=hdr, unknown='both')
+                wrong = [n2 for n2 in r_both if n2 in cfg.loop_body[hdr] and compares(n2, CMP_DEFAULT, False) and not compares(n2, CMP_BOTH, True)]
+                rep.ob('C13-D1 key-region', f.fq(), f"[{branch}] key both (loop over {owner}): block `{t}` is not compared with zero", f.loc(lp), not wrong,
+                       'a block that the other operand has too is skipped (or compared with it)' if not wrong else
+                       f"a block present in both operands is compared with its default ({cfg.describe(wrong[0])}): a non-zero block makes the test fail although the operands agree")
                 continue
             kinds = CMP_BOTH if present else CMP_DEFAULT
             okp, wit = _all_paths(cfg, be, hdr, env, lambda n: compares(n, kinds, present))
@@ -94,6 +100,21 @@ def region_coverage(rep: Report, f: FuncInfo) -> int:
             rep.ob('C13-D1 key-region', f.fq(), f"[{branch}] key {region}: block `{t}` compared " + ('with the other block' if present else 'with its default (absent = zero)'),
                    f.loc(lp), okp,
                    'every path of the iteration passes the comparison' if okp else 'an iteration for such a key can finish without comparing the block: ' + ' -> '.join(cfg.describe(x) for x in (wit or [])[:5]))
+        # the verdict follows the comparison: `return False` is reached exactly on the paths where a comparison failed
+        cmp_atoms: Dict[str, ast.AST] = {}
+        for n2 in cfg.loop_body[hdr]:
+            if cfg.nodes[n2].kind == 'test':
+                for t2, a2 in collect_atoms(cfg.nodes[n2].expr).items():
+                    alts = expand_local_calls(f.node, inline_temps(lp, a2))     # a verdict that was given a name first
+                    if all(any(isinstance(x, ast.Call) and isinstance(x.func, ast.Attribute) and x.func.attr in (CMP_BOTH | CMP_DEFAULT) for x in ast.walk(alt)) for alt in alts):
+                        cmp_atoms[t2] = a2
+        ret_false = {n2 for n2 in cfg.loop_body[hdr] if cfg.nodes[n2].kind == 'return' and isinstance(cfg.nodes[n2].expr, ast.Constant) and cfg.nodes[n2].expr.value is False}
+        if cmp_atoms and ret_false:
+            r_ok = walk(cfg, be, Env(atoms={t2: True for t2 in cmp_atoms}), loop_header_stop=hdr, unknown='both')
+            spurious = ret_false & r_ok
+            rep.ob('C13-D1 key-region', f.fq(), f"[{branch}] loop over {owner}: blocks that compare equal do not end the test with False", f.loc(lp), not spurious,
+                   'with every comparison succeeding the iteration goes on to the next block' if not spurious else
+                   f"`return False` is reached although every comparison of the iteration succeeded ({cfg.describe(sorted(spurious)[0])}): the stopping test can never succeed")
         # a failed comparison leaves with False (for boolean-returning variants)
         fails = [n for n in cfg.loop_body[hdr] if cfg.nodes[n].kind == 'return']
         if fails:
